@@ -9,12 +9,16 @@ package main
 //   history-*  the same probe (start_session: history / run_summary; a template reading path, results, related runs,
 //            contact, input, now()) before and after waits, with triggers that carry no input (mutation trial M15:
 //            a memoised run.ReceivedInput())
+//   localized-long-category  translations of category names / set_run_result categories beyond every definition-time
+//            limit, saved into category_localized by the live engine and validated only when the run is read back
+//            (mutation trial M22)
 //   exited-child-flow  templates reading the flow of an exited child / exited parent after a restart; msg trigger with
 //            a keyword match built through the builder API (mutation trials M13, M14 in checks/C02.mutations.md)
 
 import (
 	"encoding/json"
 	"fmt"
+	"strings"
 
 	"github.com/nyaruka/goflow/assets"
 	"github.com/nyaruka/goflow/assets/static"
@@ -132,6 +136,32 @@ func corpusScenarios() []*Scenario {
 			flowDef(2, actionNode(201, 202, map[string]any{"type": "start_session", "flow": flowRefJSON(1), "create_contact": true}), waitNode(202, 203),
 				actionNode(203, 0, map[string]any{"type": "start_session", "flow": flowRefJSON(1), "create_contact": true}, map[string]any{"type": "send_msg", "text": probeText}))},
 			flowAction(false), []json.RawMessage{msg(0, "a"), msg(1, "b")}},
+		{"localized-long-category", func() []any {
+			fl := []any{flowDef(1, waitNode(101, 102),
+				actionNode(102, 103, map[string]any{"type": "set_run_result", "name": "r1", "value": "v", "category": "Cat"},
+					map[string]any{"type": "send_msg", "text": "c=@results.r0.category_localized / @results.r1.category_localized", "quick_replies": []string{"Yes"}}),
+				waitNode(103, 104),
+				actionNode(104, 0, map[string]any{"type": "send_msg", "text": "again @results.r0.category_localized"}))}
+			fm := fl[0].(map[string]any)
+			fm["localization"] = map[string]any{"spa": map[string]any{
+				ruuid(kCat, 1010): map[string]any{"name": []string{strings.Repeat("Categoría muy larga ", 4)}},
+				ruuid(kCat, 1030): map[string]any{"name": []string{"dos\nlíneas\ty tab"}},
+				ruuid(kAct, 1020): map[string]any{"category": []string{strings.Repeat("z", 200)}},
+				ruuid(kAct, 1021): map[string]any{"text": []string{"[spa] c=@results.r0.category_localized"}, "quick_replies": []string{strings.Repeat("q", 70)}},
+			}}
+			return fl
+		}(), func() map[string]any {
+			c := map[string]any{}
+			for k, v := range contact {
+				c[k] = v
+			}
+			c["language"] = "spa"
+			t := manual(false)
+			t["contact"] = c
+			t["environment"] = map[string]any{"date_format": "DD-MM-YYYY", "time_format": "tt:mm", "timezone": "America/Guayaquil", "allowed_languages": []string{"eng", "spa"},
+				"default_country": "US", "redaction_policy": "none", "input_collation": "default"}
+			return t
+		}(), []json.RawMessage{msg(0, "a"), msg(1, "b")}},
 		{"exited-child-flow", []any{
 			flowDef(1, actionNode(101, 102, map[string]any{"type": "enter_flow", "flow": flowRefJSON(2)}), waitNode(102, 103),
 				actionNode(103, 104, map[string]any{"type": "send_msg", "text": "c=@child f=@child.flow.name s=@child.status r=@child.results.r0.value"}), waitNode(104, 105),
